@@ -102,7 +102,8 @@ Record FRel (p : fpend) (st : wstate) (m : m14) : Prop := {
               (forall q x, tcur (thr st t) <> Some (CPSend q x)) /\ (forall z, v = RVal z -> tcur (thr st t) = Some CRecv /\ wkr st t);
   f_own_pr : forall t i, In i (tcont (thr st t)) ->
              (forall m0 q, i = ILock m0 (LPqRecv q) \/ i = ICvReacq q -> wkr st t /\ tcur (thr st t) = Some CRecv /\ q = tpipe (thr st t)) /\
-             (forall m0 q, i = ILock m0 (LPqCancelGet q) -> wkr st t /\ tcur (thr st t) = Some CCancel /\ q = tpipe (thr st t));
+             (forall m0 q, i = ILock m0 (LPqCancelGet q) -> wkr st t /\ tcur (thr st t) = Some CCancel /\ q = tpipe (thr st t)) /\
+             (forall m0 q x, i = ILock m0 (LPqLSend q x) -> wkr st t /\ tcur (thr st t) = Some (CLSend x) /\ q = tpipe (thr st t));
   f_pr : forall t c, tcur (thr st t) = Some c -> wcmd c ->
          (prcount (tcont (thr st t)) <= 1)%nat /\ ((1 <= prcount (tcont (thr st t)))%nat -> tret (thr st t) = RUnit) }.
 
@@ -291,7 +292,8 @@ Section FStep.
     (forall q x, tcur (thr st' t) <> Some (CPSend q x)) /\ (forall z, v = RVal z -> tcur (thr st' t) = Some CRecv /\ wkr st' t).
   Hypothesis O_own_pr : forall j, In j (tcont (thr st' t)) ->
     (forall m0 q, j = ILock m0 (LPqRecv q) \/ j = ICvReacq q -> wkr st' t /\ tcur (thr st' t) = Some CRecv /\ q = tpipe (thr st' t)) /\
-    (forall m0 q, j = ILock m0 (LPqCancelGet q) -> wkr st' t /\ tcur (thr st' t) = Some CCancel /\ q = tpipe (thr st' t)).
+    (forall m0 q, j = ILock m0 (LPqCancelGet q) -> wkr st' t /\ tcur (thr st' t) = Some CCancel /\ q = tpipe (thr st' t)) /\
+    (forall m0 q x, j = ILock m0 (LPqLSend q x) -> wkr st' t /\ tcur (thr st' t) = Some (CLSend x) /\ q = tpipe (thr st' t)).
   Hypothesis O_pr : forall c, tcur (thr st' t) = Some c -> wcmd c ->
     (prcount (tcont (thr st' t)) <= 1)%nat /\ ((1 <= prcount (tcont (thr st' t)))%nat -> tret (thr st' t) = RUnit).
 
@@ -342,14 +344,15 @@ Section FStep.
     - intros u m0 q Hin. destruct (Nat.eq_dec u t) as [->|Hu]; [apply (O_own_cs m0 q Hin)|]. rewrite (Co u Hu) in Hin. rewrite Cu, Pe. apply (f_own_cs _ _ _ R u m0 q Hin).
     - intros u L. apply La in L. rewrite Cu. apply (f_late_cur _ _ _ R u L).
     - intros u m0 v Hin. destruct (Nat.eq_dec u t) as [->|Hu]; [apply (O_own_ret m0 v Hin)|]. rewrite (Co u Hu) in Hin. rewrite Cu. destruct (f_own_ret _ _ _ R u m0 v Hin) as [A B]. split; [exact A|]. intros z Ez. destruct (B z Ez) as [B1 B2]. split; [exact B1|apply fs_wkr; exact B2].
-    - intros u j Hin. destruct (Nat.eq_dec u t) as [->|Hu]; [apply (O_own_pr j Hin)|]. rewrite (Co u Hu) in Hin. rewrite Cu, Tp. destruct (f_own_pr _ _ _ R u j Hin) as [A B]. split; [intros m0 q E; destruct (A m0 q E) as [A1 A2]; split; [apply fs_wkr; exact A1|exact A2]|intros m0 q E; destruct (B m0 q E) as [B1 B2]; split; [apply fs_wkr; exact B1|exact B2]].
+    - intros u j Hin. destruct (Nat.eq_dec u t) as [->|Hu]; [apply (O_own_pr j Hin)|]. rewrite (Co u Hu) in Hin. rewrite Cu, Tp. destruct (f_own_pr _ _ _ R u j Hin) as [A [B C]]. split; [intros m0 q E; destruct (A m0 q E) as [A1 A2]; split; [apply fs_wkr; exact A1|exact A2]|split; [intros m0 q E; destruct (B m0 q E) as [B1 B2]; split; [apply fs_wkr; exact B1|exact B2]|intros m0 q x E; destruct (C m0 q x E) as [C1 C2]; split; [apply fs_wkr; exact C1|exact C2]]].
     - intros u c Hcu Wc. destruct (Nat.eq_dec u t) as [->|Hu]; [apply (O_pr c Hcu Wc)|]. rewrite Cu in Hcu. rewrite (Co u Hu), (Htr u Hu). apply (f_pr _ _ _ R u c Hcu Wc).
   Qed.
 End FStep.
 
 Lemma fq_facts : forall j, fq j -> pr j = false /\ (forall q, spend q [j] = []) /\ rvals [j] = [] /\
   (forall m0 q x, j <> ILock m0 (LPqSend q x)) /\ (forall m0 q, j <> ILock m0 (LPqCancelSet q)) /\ (forall m0 v, j <> IUnlock m0 (URet v)) /\
-  (forall m0 q, j <> ILock m0 (LPqRecv q)) /\ (forall q, j <> ICvReacq q) /\ (forall m0 q, j <> ILock m0 (LPqCancelGet q)).
+  (forall m0 q, j <> ILock m0 (LPqRecv q)) /\ (forall q, j <> ICvReacq q) /\ (forall m0 q, j <> ILock m0 (LPqCancelGet q)) /\
+  (forall m0 q x, j <> ILock m0 (LPqLSend q x)).
 Proof.
   intros j H. destruct j; cbn in H; try contradiction; try (repeat split; try reflexivity; intros; discriminate).
   - destruct a; cbn in H; try contradiction; repeat split; try reflexivity; intros; discriminate.
@@ -368,7 +371,7 @@ Lemma fq'_list : forall i new, (forall j, In j new -> fq' i j) ->
   (forall q, spend q new = []) /\ rvals new = [] /\
   (forall j, In j new -> (forall m0 q x, j <> ILock m0 (LPqSend q x)) /\ (forall m0 q, j <> ILock m0 (LPqCancelSet q)) /\
                          (forall m0 q, j <> ILock m0 (LPqRecv q)) /\ (forall q, j <> ICvReacq q) /\ (forall m0 q, j <> ILock m0 (LPqCancelGet q)) /\
-                         (forall m0 z, j <> IUnlock m0 (URet (RVal z)))) /\
+                         (forall m0 z, j <> IUnlock m0 (URet (RVal z))) /\ (forall m0 q x, j <> ILock m0 (LPqLSend q x))) /\
   (~ chan_lock i -> prcount new = O /\ forall m0 v, ~ In (IUnlock m0 (URet v)) new).
 Proof.
   intros i new. induction new as [|j k IH]; intro H.
@@ -377,9 +380,9 @@ Proof.
     assert (Hj : (forall q, spend q [j] = []) /\ rvals [j] = [] /\
                  ((forall m0 q x, j <> ILock m0 (LPqSend q x)) /\ (forall m0 q, j <> ILock m0 (LPqCancelSet q)) /\
                   (forall m0 q, j <> ILock m0 (LPqRecv q)) /\ (forall q, j <> ICvReacq q) /\ (forall m0 q, j <> ILock m0 (LPqCancelGet q)) /\
-                  (forall m0 z, j <> IUnlock m0 (URet (RVal z)))) /\ (~ chan_lock i -> pr j = false /\ forall m0 v, j <> IUnlock m0 (URet v))).
+                  (forall m0 z, j <> IUnlock m0 (URet (RVal z))) /\ (forall m0 q x, j <> ILock m0 (LPqLSend q x))) /\ (~ chan_lock i -> pr j = false /\ forall m0 v, j <> IUnlock m0 (URet v))).
     { destruct (H j (or_introl eq_refl)) as [F|[Cl [[m0 [b ->]]|[m0 [c [x ->]]]]]].
-      - destruct (fq_facts j F) as [F1 [F2 [F3 [F4 [F5 [F6 [F7 [F8 F9]]]]]]]]. split; [exact F2|]. split; [exact F3|].
+      - destruct (fq_facts j F) as [F1 [F2 [F3 [F4 [F5 [F6 [F7 [F8 [F9 F10]]]]]]]]]. split; [exact F2|]. split; [exact F3|].
         split; [repeat split; auto; intros m0 z E; exact (F6 m0 _ E)|]. intros _. split; [exact F1|exact F6].
       - split; [intro q; reflexivity|]. split; [reflexivity|]. split; [repeat split; intros; discriminate|]. intro N. exfalso. exact (N Cl).
       - split; [intro q; reflexivity|]. split; [reflexivity|]. split; [repeat split; intros; discriminate|]. intro N. exfalso. exact (N Cl). }
@@ -405,7 +408,7 @@ Proof.
   intros p st m t i r st' ev I S R Hc Hi H.
   destruct (exec_instr_feff _ _ _ _ _ _ I Hc Hi H) as [Pp [new [Hc' Hnew]]].
   destruct (exec_instr_eff _ _ _ _ _ _ I Hc H) as [F _ _ _ Htret _ Hnoc].
-  destruct (fq_facts i Hi) as [I1 [I2 [I3 [I4 [I5 [I6 [I7 [I8 I9]]]]]]]].
+  destruct (fq_facts i Hi) as [I1 [I2 [I3 [I4 [I5 [I6 [I7 [I8 [I9 I10]]]]]]]]].
   destruct (fq'_list i new Hnew) as [N1 [N2 [N3 N4]]].
   assert (Tr : forall u, tret (thr st' u) = tret (thr st u)).
   { apply Htret; [intros m0 v E; exact (I6 m0 v E)|intros m0 c x E; subst i; exact Hi]. }
@@ -452,14 +455,15 @@ Proof.
   - intros m0 v Hin. rewrite Cu. destruct (Inr _ Hin) as [Hj|Hj].
     + split.
       * intros q x Hcu. destruct (N4 (NotChan _ Hcu (or_intror (ex_intro _ q (ex_intro _ x eq_refl))))) as [_ Z0]. exact (Z0 m0 v Hj).
-      * intros z ->. exfalso. destruct (N3 _ Hj) as [_ [_ [_ [_ [_ Z0]]]]]. exact (Z0 m0 z eq_refl).
+      * intros z ->. exfalso. destruct (N3 _ Hj) as [_ [_ [_ [_ [_ [Z0 _]]]]]]. exact (Z0 m0 z eq_refl).
     + destruct (f_own_ret _ _ _ R t m0 v Hj) as [A B]. split; [exact A|]. intros z Ez. destruct (B z Ez) as [B1 B2]. split; [exact B1|apply Wk; exact B2].
   - intros j Hin. rewrite Cu, Tp. destruct (Inr _ Hin) as [Hj|Hj].
-    + destruct (N3 _ Hj) as [_ [_ [Z1 [Z2 [Z3 _]]]]]. split.
+    + destruct (N3 _ Hj) as [_ [_ [Z1 [Z2 [Z3 [_ Z4]]]]]]. split; [|split].
       * intros m0 q [E|E]; exfalso; [exact (Z1 m0 q E)|exact (Z2 q E)].
       * intros m0 q E. exfalso. exact (Z3 m0 q E).
-    + destruct (f_own_pr _ _ _ R t j Hj) as [A B]. split; [intros m0 q E; destruct (A m0 q E) as [A1 A2]; split; [apply Wk; exact A1|exact A2]
-                                                          |intros m0 q E; destruct (B m0 q E) as [B1 B2]; split; [apply Wk; exact B1|exact B2]].
+      * intros m0 q x E. exfalso. exact (Z4 m0 q x E).
+    + destruct (f_own_pr _ _ _ R t j Hj) as [A [B C]]. split; [intros m0 q E; destruct (A m0 q E) as [A1 A2]; split; [apply Wk; exact A1|exact A2]|split;
+        [intros m0 q E; destruct (B m0 q E) as [B1 B2]; split; [apply Wk; exact B1|exact B2]|intros m0 q x E; destruct (C m0 q x E) as [C1 C2]; split; [apply Wk; exact C1|exact C2]]].
   - intros c Hcu Wc. rewrite Cu in Hcu. rewrite Tr, Hc'. destruct (N4 (NotChan c Hcu (or_introl Wc))) as [Z0 _].
     rewrite prcount_app, Z0. cbn [plus]. destruct (f_pr _ _ _ R t c Hcu Wc) as [A B]. rewrite Hc, prcount_cons, I1 in A, B. exact (conj A B).
 Qed.
@@ -508,9 +512,9 @@ Proof.
   - intros m0 v Hin. rewrite Cu. destruct (Nq _ Hin) as [[Fj _]|Hj]; [exfalso; exact (proj1 (proj2 (proj2 (proj2 (proj2 (proj2 (fq_facts _ Fj)))))) m0 v eq_refl)|].
     destruct (f_own_ret _ _ _ R t m0 v (Inr _ Hj)) as [A B]. split; [exact A|]. intros z Ez. destruct (B z Ez) as [B1 B2]. split; [exact B1|apply Wk; exact B2].
   - intros j Hin. rewrite Cu, Tp. destruct (Nq _ Hin) as [[Fj _]|Hj].
-    + destruct (fq_facts _ Fj) as [_ [_ [_ [_ [_ [_ [Z1 [Z2 Z3]]]]]]]]. split; [intros m0 q [E|E]; exfalso; [exact (Z1 m0 q E)|exact (Z2 q E)]|intros m0 q E; exfalso; exact (Z3 m0 q E)].
-    + destruct (f_own_pr _ _ _ R t j (Inr _ Hj)) as [A B]. split; [intros m0 q E; destruct (A m0 q E) as [A1 A2]; split; [apply Wk; exact A1|exact A2]
-                                                                   |intros m0 q E; destruct (B m0 q E) as [B1 B2]; split; [apply Wk; exact B1|exact B2]].
+    + destruct (fq_facts _ Fj) as [_ [_ [_ [_ [_ [_ [Z1 [Z2 [Z3 Z4]]]]]]]]]. split; [intros m0 q [E|E]; exfalso; [exact (Z1 m0 q E)|exact (Z2 q E)]|split; [intros m0 q E; exfalso; exact (Z3 m0 q E)|intros m0 q x E; exfalso; exact (Z4 m0 q x E)]].
+    + destruct (f_own_pr _ _ _ R t j (Inr _ Hj)) as [A [B C]]. split; [intros m0 q E; destruct (A m0 q E) as [A1 A2]; split; [apply Wk; exact A1|exact A2]|split;
+        [intros m0 q E; destruct (B m0 q E) as [B1 B2]; split; [apply Wk; exact B1|exact B2]|intros m0 q x E; destruct (C m0 q x E) as [C1 C2]; split; [apply Wk; exact C1|exact C2]]].
   - intros c Hcu Wc. rewrite Cu in Hcu. rewrite Hc', prcount_app, Pz. cbn [plus]. apply (Opr c Hcu Wc).
 Qed.
 
